@@ -72,12 +72,15 @@ class Agg:
         self.fns = []
         self.npaths = 0
 
-    def exec(self, fn_re, models, log=(), unroll=2, init_env=None, max_paths=4000, first_arg_re=""):
+    def exec(self, fn_re, models, log=(), unroll=2, init_env=None, max_paths=4000, first_arg_re="", prep=None):
         text = find_fn(self.mir, fn_re, first_arg_re)
         m = dict(mirexec.COMMON_MODELS)
         m.update(models)
         ex = mirexec.Exec(text, self.enums, mirsmt.consts_of(self.mir), m, set(log), unroll=unroll, mir=self.mir,
                           max_paths=max_paths)
+        if prep:
+            # directed execution: the caller fixes some discriminants / arguments before the paths are enumerated
+            init_env = dict(init_env or {}, **(prep(ex) or {}))
         ex.run(init_env)
         self.npaths += len(ex.paths)
         return ex
@@ -743,11 +746,11 @@ SITES = {
 
 
 def run(prop, mir, src, ob):
-    import mirblocks, mirflow, mirpaths, mirload
+    import mirblocks, mirflow, mirpaths, mirload, mirquery
     a = Agg(mir, src, ob)
     for s in SITES.get(prop, []):
         getattr(a, s)()
-    for f in mirblocks.SITES.get(prop, []) + mirflow.SITES.get(prop, []) + mirpaths.SITES.get(prop, []) + mirload.SITES.get(prop, []):
+    for f in mirblocks.SITES.get(prop, []) + mirflow.SITES.get(prop, []) + mirpaths.SITES.get(prop, []) + mirload.SITES.get(prop, []) + mirquery.SITES.get(prop, []):
         try:
             f(a)
         except Untranslatable as e:
@@ -758,5 +761,5 @@ def run(prop, mir, src, ob):
 
 
 def has_sites(prop):
-    import mirblocks, mirflow, mirpaths, mirload
-    return prop in SITES or prop in mirblocks.SITES or prop in mirflow.SITES or prop in mirpaths.SITES or prop in mirload.SITES
+    import mirblocks, mirflow, mirpaths, mirload, mirquery
+    return prop in SITES or prop in mirblocks.SITES or prop in mirflow.SITES or prop in mirpaths.SITES or prop in mirload.SITES or prop in mirquery.SITES
